@@ -2,6 +2,7 @@ SPECIFICATION Spec
 CONSTANTS
   Sizes = {9, 17, 34, 130, 260}
   BigSizes = {520, 1030}
+  DeepSizes = {1100}
   ModelUpTo = 40
   Export = TRUE
 INVARIANT Inv
